@@ -101,6 +101,26 @@ pub fn read_stub(_f: &mut File, buf: &mut [u8]) -> io::Result<usize> {
         Ok(n)
     }
 }
+/// `File` does not override `read_exact`; the provided method's retry loop asks the
+/// bit-packed `io::Error` whether it is `Interrupted`, which CBMC cannot fold.  The in-memory
+/// file never reports `Interrupted` (C14 covers interrupted reads), so the answer is `false`.
+pub fn not_interrupted_stub(_e: &io::Error) -> bool {
+    false
+}
+/// `?` on an `io::Error` inside the loaders converts it with anyhow's blanket `From`, which
+/// walks `dyn Error` machinery (provide/source over every implementor) that CBMC cannot
+/// digest.  The replacement keeps the control flow (an `anyhow::Error` is produced, the
+/// error is consumed) and drops the introspection; it applies to every error type converted
+/// by `?` in the loaders (the concrete error kind is therefore not observable in these harnesses).
+pub static mut SPARE_ERROR: Option<anyhow::Error> = None;
+pub fn anyhow_from_stub<E: std::error::Error + Send + Sync + 'static>(e: E) -> anyhow::Error {
+    core::mem::forget(e);
+    // an error object prepared by the harness before the loader runs, if any
+    match unsafe { (*core::ptr::addr_of_mut!(SPARE_ERROR)).take() } {
+        Some(x) => x,
+        None => anyhow::Error::msg("error (converted by the harness stub)"),
+    }
+}
 /// `BufReader<File>` fills its buffer through `read_buf` (unstable API, Kani's toolchain only).
 #[cfg(kani)]
 pub fn read_buf_stub(_f: &mut File, mut cursor: std::io::BorrowedCursor<'_, u8>) -> io::Result<()> {
@@ -192,6 +212,8 @@ macro_rules! fs_harness {
         #[cfg_attr(kani, kani::stub(std::fs::OpenOptions::append, crate::fsenv::oo_append_stub))]
         #[cfg_attr(kani, kani::stub(std::fs::OpenOptions::open, crate::fsenv::oo_open_stub))]
         #[cfg_attr(kani, kani::stub(<std::fs::File as std::io::Read>::read, crate::fsenv::read_stub))]
+        #[cfg_attr(kani, kani::stub(std::io::Error::is_interrupted, crate::fsenv::not_interrupted_stub))]
+        #[cfg_attr(kani, kani::stub(<anyhow::Error as core::convert::From<std::io::Error>>::from, crate::fsenv::anyhow_from_stub))]
         #[cfg_attr(kani, kani::stub(<std::fs::File as std::io::Read>::read_buf, crate::fsenv::read_buf_stub))]
         #[cfg_attr(kani, kani::stub(std::io::BufReader::new, crate::fsenv::bufreader_new_stub))]
         #[cfg_attr(kani, kani::stub(std::io::BufWriter::new, crate::fsenv::bufwriter_new_stub))]
